@@ -445,9 +445,44 @@ func explain(model ssa.Doc, got string) int {
 	return -1
 }
 
+// mergeRuns re-segments every line the way any SSA reader must: runs start at override blocks only.
+func mergeRuns(d ssa.Doc) ssa.Doc {
+	o := d
+	o.Events = nil
+	for _, e := range d.Events {
+		ne := e
+		ne.Lines = nil
+		for _, l := range e.Lines {
+			var nl []ssa.Run
+			for _, r := range l {
+				if r.Block == "" && len(nl) > 0 {
+					nl[len(nl)-1].Text += r.Text
+				} else {
+					nl = append(nl, r)
+				}
+			}
+			ne.Lines = append(ne.Lines, nl)
+		}
+		o.Events = append(o.Events, ne)
+	}
+	return o
+}
+
+// writable: the models the write direction is stated for ("representable cue lists").
 func writable(d ssa.Doc) bool {
 	if len(d.Events) == 0 {
 		return true // the error path
+	}
+	for _, e := range d.Events {
+		for _, l := range e.Lines {
+			s := ""
+			for _, r := range l {
+				s += r.Block + r.Text
+			}
+			if s != strings.TrimSpace(s) {
+				return false // white space at the outer ends of a line is not carried by the format
+			}
+		}
 	}
 	st := d.Info.Str["ScriptType"]
 	if d.V4Plus != (st == "v4.00+") {
@@ -524,8 +559,9 @@ func CheckWrite(d ssa.Doc) (vs []Viol, outcome uint64) {
 		if hs != 0 {
 			// the drift caused by the defects already reported above: the second write must be what
 			// the writer makes of the (defect-transformed) model, nothing else may move
+			// (re-segmented at override blocks, as reading does)
 			m, _ := applyH(d, hs)
-			expect, _, _ = safeWrite(ToSubs(m, buildOpt{}))
+			expect, _, _ = safeWrite(ToSubs(mergeRuns(m), buildOpt{}))
 		}
 		if !bytes.Equal(out2, expect) {
 			vs = append(vs, Viol{"ssa.write.rewrite-differs", fmt.Sprintf("first write  %q\nsecond write %q\nexpected     %q", out, out2, expect)})
@@ -565,6 +601,7 @@ func run(c *core.Ctx) {
 	if thorough {
 		bound = 3
 	}
+	log.SetOutput(io.Discard)
 	var cs Case
 	seenW := map[uint64]struct{}{}
 	visit := func(sub string) func(x *explore.C) bool {
@@ -606,9 +643,15 @@ func run(c *core.Ctx) {
 	}
 	explore.Explore(-1, func(x *explore.C) { cs = genCoreStyles(x) }, visit("core-styles"))
 	explore.Explore(-1, func(x *explore.C) { cs = genCoreEvents(x) }, visit("core-events"))
+	explore.Explore(-1, func(x *explore.C) { cs = genCoreText(x) }, visit("core-text"))
 	explore.Explore(-1, func(x *explore.C) { cs = genCoreInfo(x) }, visit("core-info"))
-	p := profile{thorough: thorough, full: true}
-	explore.Explore(bound, func(x *explore.C) { cs = genBall(x, p) }, visit("ball"))
+	p := profile{thorough: thorough}
+	explore.Explore(2, func(x *explore.C) { cs = genBall(x, p) }, visit("ball"))
+	if thorough {
+		// B=3 with the reduced family of column orders (adjacent transpositions, rotations, reversal)
+		p.reducedPerms = true
+		explore.Explore(3, func(x *explore.C) { cs = genBall(x, p) }, visit("ball3"))
+	}
 	c.ExtraMax["deviation_bound"] = float64(bound)
 }
 
@@ -636,7 +679,7 @@ func init() {
 		Rule: "a case = (ground-truth SSA model, rendering choices) chosen by the E1 explorer. Model: script info (15 fields, comments), 0..s styles over all 23 typed attributes sharing one Format, Dialogue events with every column (start/end cs, layer or marked, margins, effect, name, style reference incl. '*' forms), text of lines x runs (override block + text, commas, colons, look-alike cells). Rendering: v4 / v4+, column order of both Format lines (every transposition, rotation and the reversal of the full column list; every permutation in the core products), column subsets, Text last, section-name case and [V4 Styles+], H: vs HH: times, 5 colour encodings (&H upper/lower/6-digit, signed/unsigned decimal), booleans -1/0, float forms, padded margins, \\N / \\n, EOL kinds, BOM, unterminated last line, blank lines, Format separators, field order, comment forms, Timer forms, junk (colon-less lines, unknown keys, Comment/Picture/Sound/Movie/Command events, unknown sections holding look-alike lines). Read: ReadFromSSA(render(model)) must denote the model (info, style table, events compared separately). Write: WriteToSSA(model) must denote the model to ReadFromSSA and to the independent Format-driven decoder (true <=> -1), and write(read(write(model))) must be byte-identical to write(model); known writer defects are matched as exact model transformations so everything else stays compared. non-trivial = non-baseline case, distinct by rendered bytes (read) or by model (write)",
 		Scope: map[core.Tier]string{
 			core.Quick:    "core products (styles: <=2 styles x subsets of 4 attributes x all column permutations x 5 radices x v4/v4+; events: <=2 events x <=2 lines x <=2 runs x all permutations of 5 columns x break kind x time form x EOL; info: subsets of 6 fields x comments x junk x EOL) + deviation ball B=2 over all choice points (<=2 styles, <=2 events, <=2 lines, <=3 runs)",
-			core.Thorough: "core products + deviation ball B=3 (<=3 styles, <=3 events, <=3 lines, <=3 runs)",
+			core.Thorough: "core products + deviation ball B=2 as in quick but <=3 styles, <=3 events, <=3 lines + deviation ball B=3 with the column orders reduced to adjacent transpositions, rotations and the reversal",
 		},
 		Assumptions: []string{"Go toolchain and standard library", "independent reference codec engine/ref/ssa",
 			"white space at the outer ends of a text line is outside the denotation (the reader trims; the format description is silent)",
